@@ -393,6 +393,15 @@ func suiteAlias(rn *runner, r *rng, tier string) {
 			bigStreamCase(rn, r.fork(), "holdall", 3+k, 1+k%4, []int{0, 1 << 20, 3 << 20}[k%3], "alias")
 		}
 	}
+	// ownership chains: Parse / Deserialize / Clone with recycled destinations and in-place edits; every document that
+	// was not handed in as a destination must still read as it did
+	nc := 2000
+	if tier == "thorough" {
+		nc = 20000
+	}
+	for i := 0; i < nc; i++ {
+		aliasChainCase(rn, r.fork(), 4+r.intn(12), "alias")
+	}
 	n := 800
 	if tier == "thorough" {
 		n = 20000
